@@ -123,14 +123,28 @@ fn walk(words: &[u8], packet_lens: &[u32]) -> Result<Vec<u64>, Fail> {
                 model = next;
             }
             Step::Illegal(_) => {
-                // the successor after an illegal word is not prescribed: follow the implementation
-                model = St::from_id(fsm.verif_state_id()).unwrap_or(St::Ihw);
+                let after = fsm.verif_state_id();
+                // single-successor states: the word is taken as the expected one, the successor is the diagram's
+                if let Some(next) = itsgen::models::diagram_successor_after_illegal(model, w) {
+                    if St::from_id(after) != Some(next) {
+                        return Err(Fail::new(
+                            "fsm",
+                            "successor-after-illegal-word",
+                            format!(
+                                "word {i} {:02X?} (not legal in the single-successor state {model:?}, taken as the expected word): diagram successor {next:?}, implementation went to state {after}",
+                                w
+                            ),
+                        ));
+                    }
+                }
+                // choice states: the successor after an illegal word is not prescribed - follow the implementation
+                model = St::from_id(after).unwrap_or(St::Ihw);
             }
         }
     }
     // --- half 2: the payload validator: an illegal word is never silently accepted
     let (tx, rx) = flume::unbounded::<StatType>();
-    let mut v: CdpRunningValidator<RdhCru, Cfg> = CdpRunningValidator::new(cfg(), tx);
+    let mut v: CdpRunningValidator<RdhCru, Cfg> = CdpRunningValidator::new(cfg(), tx.clone());
     let mut model = St::Ihw;
     let mut fsm_shadow = ItsPayloadFsmContinuous::new();
     let mut pos: u64 = 0;
@@ -158,24 +172,89 @@ fn walk(words: &[u8], packet_lens: &[u32]) -> Result<Vec<u64>, Fail> {
             fee_id: 0x000C,
             ..Default::default()
         };
-        let bytes = rdh.to_bytes();
-        let r: RdhCru = RdhCru::load(&mut &bytes[..]).expect("rdh");
-        v.set_current_rdh(&r, pos);
-        for k in 0..n {
-            if wi >= all.len() {
-                break;
-            }
-            let w = all[wi];
-            let word_off = pos + 64 + (k as u64) * 10;
-            let step = diagram_step(model, w);
-            v.check(w);
-            let _ = fsm_shadow.advance(w);
+        // 1 packet in 8 is preceded by a packet whose payload ends in more than 15 bytes of 0xFF: a payload
+        // error, after which the next packet is judged from the initial state (the real entry point
+        // `do_payload_checks` does the reset)
+        if pi > 0 && hrng.chance(1, 8) {
+            let junk = vec![0xFFu8; 16 + hrng.usize_below(24)];
+            let mut bad = rdh.clone();
+            bad.memory_size = (64 + junk.len()) as u16;
+            bad.offset_next = bad.memory_size;
+            let bytes = bad.to_bytes();
+            let r: RdhCru = RdhCru::load(&mut &bytes[..]).expect("rdh");
+            fastpasta::analyze::validators::its::lib::do_payload_checks((&r, &junk[..], pos), &tx, &mut v).expect("stats channel");
             let mut msgs: Vec<String> = Vec::new();
             while let Ok(m) = rx.try_recv() {
                 if let StatType::Error(e) = m {
                     msgs.push(oracle::strip_ansi(&e));
                 }
             }
+            let want_prefix = format!("{:#X}: Payload error following RDH", pos);
+            if msgs.len() != 1 || !msgs[0].starts_with(&want_prefix) {
+                return Err(Fail::new(
+                    "fsm",
+                    "excess-padding-payload",
+                    format!("a payload of {} bytes of 0xFF at {pos:#X}: expected exactly one payload error there, messages: {msgs:?}", junk.len()),
+                ));
+            }
+            model = St::Ihw;
+            fsm_shadow.reset_fsm();
+            pos += 64 + junk.len() as u64;
+        }
+        let n = n.min(all.len() - wi.min(all.len()));
+        if n == 0 {
+            break;
+        }
+        let mut payload: Vec<u8> = Vec::with_capacity(n * 10 + 16);
+        for w in &all[wi..wi + n] {
+            payload.extend_from_slice(w);
+        }
+        let last_id_ff = payload.last() == Some(&0xFF);
+        let pad = if hrng.chance(1, 2) { (16 - payload.len() % 16) % 16 } else { hrng.usize_below(16) };
+        payload.extend(std::iter::repeat(0xFFu8).take(pad));
+        // Not judged (followed blindly): a packet whose last word has the ID byte 0xFF (it merges with the
+        // padding) and a packet whose bytes 10..15 are all zero (the layout is recognised from them: known
+        // finding of C07)
+        if last_id_ff || (payload.len() >= 16 && payload[10..16].iter().all(|&b| b == 0)) {
+            let mut hdr = rdh.clone();
+            hdr.memory_size = (64 + payload.len()) as u16;
+            hdr.offset_next = hdr.memory_size;
+            let r: RdhCru = RdhCru::load(&mut &hdr.to_bytes()[..]).expect("rdh");
+            fastpasta::analyze::validators::its::lib::do_payload_checks((&r, &payload[..], pos), &tx, &mut v).expect("stats channel");
+            while rx.try_recv().is_ok() {}
+            // the shadow machine sees what the validator saw: the words the real cutting produces
+            match fastpasta::analyze::validators::lib::preprocess_payload(&payload) {
+                Ok(chunks) => {
+                    for c in chunks {
+                        let _ = fsm_shadow.advance(&c[..10]);
+                    }
+                }
+                Err(_) => fsm_shadow.reset_fsm(),
+            }
+            model = St::from_id(fsm_shadow.verif_state_id()).unwrap_or(St::Ihw);
+            wi += n;
+            pos += 64 + payload.len() as u64;
+            continue;
+        }
+        let mut hdr = rdh.clone();
+        hdr.memory_size = (64 + payload.len()) as u16;
+        hdr.offset_next = hdr.memory_size;
+        let bytes = hdr.to_bytes();
+        let r: RdhCru = RdhCru::load(&mut &bytes[..]).expect("rdh");
+        fastpasta::analyze::validators::its::lib::do_payload_checks((&r, &payload[..], pos), &tx, &mut v).expect("stats channel");
+        let mut all_msgs: Vec<String> = Vec::new();
+        while let Ok(m) = rx.try_recv() {
+            if let StatType::Error(e) = m {
+                all_msgs.push(oracle::strip_ansi(&e));
+            }
+        }
+        for k in 0..n {
+            let w = all[wi];
+            let word_off = pos + 64 + (k as u64) * 10;
+            let step = diagram_step(model, w);
+            let _ = fsm_shadow.advance(w);
+            let want_prefix = format!("{:#X}: ", word_off);
+            let msgs: Vec<&String> = all_msgs.iter().filter(|m| m.starts_with(&want_prefix)).collect();
             match step {
                 Step::Legal(_, next) => {
                     // a legal word must not be reported as an unrecognised ID
@@ -197,14 +276,13 @@ fn walk(words: &[u8], packet_lens: &[u32]) -> Result<Vec<u64>, Fail> {
                     model = next;
                 }
                 Step::Illegal(fam) => {
-                    let want_prefix = format!("{:#X}: ", word_off);
-                    let hit = msgs.iter().any(|m| m.starts_with(&want_prefix) && m.contains(&format!("[{}]", fam.code())));
+                    let hit = msgs.iter().any(|m| m.contains(&format!("[{}]", fam.code())));
                     if !hit {
                         return Err(Fail::new(
                             "fsm",
                             &format!("illegal-word-silently-accepted-{}", fam.code()),
                             format!(
-                                "word {wi} {:02X?} (ID {:#04X}) is illegal in state {model:?}: expected [{}] at {word_off:#X}, messages: {:?}",
+                                "word {wi} {:02X?} (ID {:#04X}) is illegal in state {model:?}: expected [{}] at {word_off:#X}, messages there: {:?}",
                                 w, w[9], fam.code(), msgs
                             ),
                         ));
@@ -214,7 +292,7 @@ fn walk(words: &[u8], packet_lens: &[u32]) -> Result<Vec<u64>, Fail> {
             }
             wi += 1;
         }
-        pos += 64 + (n as u64) * 10;
+        pos += 64 + payload.len() as u64;
     }
     Ok(cov)
 }
